@@ -794,6 +794,22 @@ func genGarbage(r *rand.Rand, id string, size int, total int) []string {
 			g.add("unchanged %d", q)
 		}
 	}
+	if kind == "log" && g.pick(2) == 0 {
+		// the same for an event log: the entry is not listed, everything else is — before and after it
+		a := peers[g.pick(len(peers))]
+		q := peers[g.pick(len(peers))]
+		for q == a {
+			q = peers[g.pick(len(peers))]
+		}
+		g.add("forge %d recipe=own base=%d k=%s v=%s raw=%s", a, a, hx([]byte("d1")), hx([]byte("x")), hx([]byte("certainly not an operation")))
+		g.add("inject %d heads=@last route=%s from=%d", q, []string{"pub", "dc"}[g.pick(2)], a)
+		g.add("obs %d", q)
+		g.add("query %d amount=-1", q)
+		write(q)
+		g.add("obs %d", q)
+		g.add("query %d amount=-1", q)
+		g.add("query %d amount=2", q)
+	}
 	if kind != "log" && g.pick(2) == 0 {
 		// a writer is not bound to what the store API writes: a validly signed entry whose payload is not
 		// an operation at all, names an operation the view does not know (on a key that has a value), or
